@@ -218,6 +218,9 @@ func c06Run(s *sut.SUT, f Flags, variant int, lines []c06Line, ch c06Chan) ([]by
 		}
 	}
 	run.Args = args
+	// standard error is a character device (a terminal, 2>/dev/null) in a third of the runs: where the
+	// diagnostics go has nothing to do with what is emitted
+	run.StderrNull = variant%3 == 2
 	r := s.CLI(run)
 	if ch.Out == "ofile" {
 		b, _ := os.ReadFile(outp)
@@ -332,6 +335,28 @@ func C06() int {
 			case 2:
 				S = append(S, bom())
 			}
+		}
+		if si%8 == 5 && len(nonIdx) > 0 {
+			// a log that starts in another format: 35-70 lines that are not JSON objects (legacy text lines, blank
+			// lines, stray text) before the first entry - the upgrade of an old deployment, `cat old.log new.log`
+			var pre []c06Line
+			for i, n := 0, 35+r.Intn(36); i < n; i++ {
+				pre = append(pre, pool[nonIdx[(si+i*7)%len(nonIdx)]])
+			}
+			S = append(pre, S...)
+		}
+		if si%16 == 11 {
+			// ... or 12-40 lines of the pre-4.4 text format (a log that spans the upgrade), blank lines in between
+			var pre []c06Line
+			for i, n := 0, 12+r.Intn(29); i < n; i++ {
+				txt := fmt.Sprintf("2020-01-%02dT10:00:%02d.%03d+0000 %s %-8s [conn%d] %s", 1+i%28, i%60, i*37%1000, []string{"I", "W", "E"}[i%3], []string{"COMMAND", "NETWORK", "STORAGE", "CONTROL"}[i%4], 100+i,
+					[]string{"command db.c command: find { find: \"c\", filter: { a: \"legacySecret\" } } planSummary: COLLSCAN 120ms", "end connection 10.0.0.5:51234 (3 connections now open)", "WiredTiger message [1579600800:123456][1:0x7f], txn-recover: Recovering log 4 through 5", "MongoDB starting : pid=1 port=27017 dbpath=/data/db 64-bit host=h"}[i%4])
+				pre = append(pre, c06Line{raw: []byte(txt), obj: false, cls: "legacy-text-prefix"})
+				if i%9 == 8 {
+					pre = append(pre, c06Line{raw: []byte(""), obj: false, cls: "blank"})
+				}
+			}
+			S = append(pre, S...)
 		}
 		if si%5 == 1 { // blank lines at the very end (progress-bar special case)
 			S = append(S, pool[nonIdx[0]], pool[nonIdx[0]])
